@@ -15,17 +15,46 @@ inductive Op where
   | plus | minus | times | floorDiv | append | prepend | concat
   deriving DecidableEq, Repr, Inhabited
 
+def outMapM {α β} (f : α → Out β) : List α → Out (List β)
+  | [] => .ok []
+  | x :: xs =>
+    match f x with
+    | .ok y => (outMapM f xs).map (y :: ·)
+    | .throw => .throw
+    | .panic => .panic
+
+def zipOut (f : Val → Val → Out Val) : List Val → List Val → Out (List Val)
+  | x :: xs, y :: ys =>
+    (match f x y with
+     | .ok z => (zipOut f xs ys).map (z :: ·)
+     | .throw => .throw
+     | .panic => .panic)
+  | _, _ => .ok []
+
+/-- `expect_nums_and_vectorize_2(_nums)` (lib.rs ~2220): number with number, and elementwise over
+vectors (two vectors need the same length) -/
+def vectorize2 (f : Val → Val → Out Val) (a b : Val) : Out Val :=
+  match a, b with
+  | .vector xs, .vector ys =>
+    if xs.length == ys.length then (zipOut f xs ys).map Val.vector else .throw
+  | .vector xs, b => if isNum b then (outMapM (fun x => f x b) xs).map Val.vector else .throw
+  | a, .vector ys => if isNum a then (outMapM (fun y => f a y) ys).map Val.vector else .throw
+  | a, b => if isNum a && isNum b then f a b else .throw
+
+def floorDivNum (a b : Val) : Out Val :=
+  match exactNum a, exactNum b with
+  | some x, some y => if y == 0 then .throw else .ok (mkNum (isRatVal a || isRatVal b) (ratFloor (x / y)))
+  | _, _ => .throw
+
 /-- `ff.run2(env, lhs, rhs)` for those operators, on the operand kinds the histories use (exact
-numbers, strings, lists, dicts; anything else raises as the builtin's argument check does) -/
+numbers and vectors of them, strings, lists, dicts, bytes; anything else raises as the builtin's
+argument check does) -/
 def applyOp (op : Op) (a b : Val) : Out Val :=
   match op with
-  | .plus => arith (· + ·) a b
-  | .minus => arith (· - ·) a b
-  | .times => arith (· * ·) a b
-  | .floorDiv =>
-    match exactNum a, exactNum b with
-    | some x, some y => if y == 0 then .throw else .ok (mkNum (isRatVal a || isRatVal b) (ratFloor (x / y)))
-    | _, _ => .throw
+  | .plus => vectorize2 (arith (· + ·)) a b
+  | .minus => vectorize2 (arith (· - ·)) a b
+  | .times => vectorize2 (arith (· * ·)) a b
+  | .floorDiv => vectorize2 floorDivNum a b
   | .append => construct .append [a, b]
   | .prepend => construct .prepend [a, b]
   | .concat =>
@@ -64,7 +93,8 @@ def evalLvalue (e : Env) : Pat → Out Val
        | some c =>
          match ixs.getLast? with
          | none => .ok c.val
-         | some last =>
+         | some (.slice _ _) => .throw
+         | some (.idx last) =>
            match getIndex c.val ixs.dropLast with
            | .ok (.dict ks vs) =>
              if !validKey last then .throw else
@@ -101,11 +131,11 @@ end
 
 /-- `Env::modify_ident(env, s, |_ty, ptr| set_index(ptr, ixs, None, true))`: store null at the
 path, *ignoring the declared type* ("overriding type!!") -/
-def dropIdent (e : Env) (x : Nat) (ixs : List Val) : Env × Out Unit :=
+def dropIdent (e : Env) (x : Nat) (ixs : List Ix) : Env × Out Unit :=
   match e.get? x with
   | none => (e, .throw)
   | some c =>
-    match setIndex c.val ixs none with
+    match setIndex c.val ixs none true with
     | .ok nv => (e.set x nv, .ok ())
     | .throw => (e, .throw)
     | .panic => (e, .panic)
@@ -149,7 +179,7 @@ def assignEvery (e : Env) : Pat → Option Ty → Val → Env × Out Unit
       match ixs with
       | [] => insertDeclare e x ty rhs
       | _ :: _ => (e, .throw)
-    | none => assignRespectingType e x ixs rhs
+    | none => assignRespectingType e x ixs rhs true
   | .seq ps _, rt, rhs => assignEveryAll e ps rt rhs
   | .anno s ann, _, rhs =>
     match ann with
@@ -190,9 +220,20 @@ end
 
 /-- `modify_every_existing_index` along an `Index` path: replace the element at the path by
 `f(element)` -/
-def modifyIndex (f : Val → Out Val) : Val → List Val → Out Val
+def modifyIndex (f : Val → Out Val) : Val → List Ix → Out Val
   | v, [] => f v
-  | v, i :: rest =>
+  | v, .slice lo hi :: rest =>
+    match v with
+    | .list xs =>
+      (match pySlice xs.length lo hi with
+       | some (a, b) => (mapRange (fun x => modifyIndex f x rest) xs 0 a b).map Val.list
+       | none => .throw)
+    | .stream xs =>
+      (match pySlice xs.length lo hi with
+       | some (a, b) => (mapRange (fun x => modifyIndex f x rest) xs 0 a b).map Val.list
+       | none => .throw)
+    | _ => .throw
+  | v, .idx i :: rest =>
     match v with
     | .list xs =>
       match pyIndex xs.length i with
